@@ -8,7 +8,9 @@ import re
 from typing import Any, Dict, Iterable, List, Optional
 from unittest import mock
 
-from harness.core import Case, Check, Finding, call, canon
+from harness.core import Case, Check, Finding, call, canon, short
+from harness.guard import guarded
+from harness.fresh import FreshWorker
 from harness.props.c17 import (ALPHA, BREAK_SETS, DEFAULT_POOL, class_table, eff_B, enum_strings, export_detector,
                                gen_corpus, generated_c17, make_detector, rand_line, random_tables, wbc_kw)
 
@@ -117,14 +119,84 @@ def specs_of(texts: List[Optional[str]], parent: Optional[str] = 'tr') -> List[D
     return [{'id': f'l{i}', 'parent': parent, 'text': t} for i, t in enumerate(texts)]
 
 
-def eff_break(B: Optional[str], det_spec) -> str:
+def eff_break(B: Optional[str], det_spec) -> Optional[str]:
     """the break characters in effect in make_text_region_text: the detector's own, else the ones passed, else
     (B is None: called without word_break_chars) the default the function declares (read with inspect, for
-    the oracle only — the model gets null and uses the regenerated default)"""
+    the oracle only — the model gets null and uses the regenerated default); None when the signature declares
+    no character collection (see c17.eff_B): the oracle then judges what does not depend on them"""
     wbd = make_detector(det_spec)
     if wbd is not None:
         return ''.join(sorted(wbd.word_break_chars))
     return eff_B(_real()[1].make_text_region_text, B)
+
+
+def snap_lines(lines) -> List[Dict[str, Any]]:
+    """deep snapshot of what the statements observe of a line: id, text, metadata (parent labels), parent, points"""
+    import copy
+    return [{'id': l.id, 'text': l.text, 'metadata': canon(copy.deepcopy(l.metadata)),
+             'parent': l.parent.id if l.parent is not None else None,
+             'points': canon(l.coords.points) if l.coords is not None else None} for l in lines]
+
+
+def snap_diff(before, after) -> List[str]:
+    out = []
+    if len(before) != len(after):
+        return [f'{len(before)} lines became {len(after)}']
+    for a, b in zip(before, after):
+        for k in a:
+            if a[k] != b[k]:
+                out.append(f'line {a["id"]!r}: {k} {short(a[k], 120)} -> {short(b[k], 120)}')
+    return out
+
+
+def _freeze(v):
+    return sorted(v) if isinstance(v, (set, frozenset)) else (list(v) if isinstance(v, (list, tuple)) else v)
+
+
+def run_para(specs, B, wbd, form='str', lines=None) -> Dict[str, Any]:
+    """one call of make_text_region_text on real lines (built from the specs unless USED line objects are handed
+    in).  Every input is snapshot before and after the call — the lines, the break characters (when a set / list
+    was handed over) and the detector's break characters: a call must not change what it was given."""
+    pdm, ph, th, ts = _real()
+    if lines is None:
+        lines, _regions = mk_lines(specs)
+    kw = wbc_kw(B, form)
+    arg = kw.get('word_break_chars')
+    before = (snap_lines(lines), _freeze(arg), _freeze(wbd.word_break_chars) if wbd is not None else None)
+
+    def f():
+        text, ranges = ph.make_text_region_text(lines, wbd=wbd, **kw)
+        return {'text': text, 'ranges': canon(ranges)}
+    r = call(f)
+    after = (snap_lines(lines), _freeze(arg), _freeze(wbd.word_break_chars) if wbd is not None else None)
+    if before != after:
+        r['inputs_changed'] = snap_diff(before[0], after[0]) + \
+            ([f'break characters {before[1]} -> {after[1]}'] if before[1] != after[1] else []) + \
+            ([f'detector break characters {before[2]} -> {after[2]}'] if before[2] != after[2] else [])
+    return r
+
+
+def run_seq(specs, steps) -> List[Dict[str, Any]]:
+    """a history: the calls `steps` one after the other on the SAME line objects (and, per detector spec, the same
+    detector object)"""
+    lines, _regions = mk_lines(specs)
+    outs = []
+    for st in steps:
+        outs.append(run_para(specs, st['B'], make_detector(st.get('det')), st.get('form', 'str'), lines=lines))
+    return outs
+
+
+def fresh_answer(payload: Dict[str, Any]) -> Any:
+    """run in a fork of a pristine interpreter (harness/fresh.py): one paragraph call at the start of a process,
+    or (payload has 'steps') a whole sequence of calls at the start of a process"""
+    if 'steps' in payload:
+        return run_seq(payload['specs'], payload['steps'])
+    return run_para(payload['specs'], payload['B'], make_detector(payload.get('det')), payload.get('form', 'str'))
+
+
+FRESH = FreshWorker('harness.props.c16', 'fresh_answer',
+                    preload=['pagexml.helper.pagexml_helper', 'pagexml.helper.text_helper',
+                             'pagexml.analysis.text_stats', 'pagexml.model.physical_document_model'])
 
 
 def merge_defaults():
@@ -170,6 +242,7 @@ def keep(s: str, B: str) -> str:
     return ''.join(ch for ch in s if not ch.isspace() and ch not in B)
 
 
+@guarded
 class C16(Check):
     pid = 'C16'
     props_module = 'PagexmlModel.Props.C16'
@@ -192,7 +265,15 @@ class C16(Check):
                   '(geometry grouping + \' \'.join / sort by baseline) are not modelled. The „ literals, the blanks of '
                   'make_line_text, the hyphen / PMI threshold of line_ends_with_word_break and all defaults are '
                   'regenerated from the source on every run (Generated/C16.lean, and Generated/C17.lean for the word '
-                  'model); the theorems hold for every value of them given the three relations C16_consts_*')
+                  'model); the theorems hold for every value of them given the three relations C16_consts_*. '
+                  'Histories (wave 4): the model is a pure function, so its answer to a call is its answer to that call '
+                  'after any history; the check runs sequences of paragraph calls (with / without detector, default / '
+                  'explicit break characters as str, set, list) on the same line and detector objects in this process '
+                  'AND in a fork of a pristine interpreter (harness/fresh.py) and demands that every answer equals the '
+                  'answer of the same call made first in a fresh process, that equal calls give equal answers, and that '
+                  'no call changes its inputs (lines, break-character container, detector); merge_lines is followed by '
+                  'USING the merged line (attached to another region by add_child / constructor / set_parent, edited): '
+                  'the original lines and the paragraph built from them must not change')
     assumptions = [
         'the class bits sent with every request (CPython) obey the three CharClass laws (checked per character)',
         'the hull of merge_lines is whatever parse_derived_coords returns (C09); here only "the same call on the '
@@ -353,6 +434,97 @@ class C16(Check):
                                  rng.choice('abBé1-. ') + rand_line(rng, P, 4)]) for _ in range(k)]
             out.append(Case('merge', {'remove': rng.choice([None, True, True]), 'wb': None,
                                       'lines': self._boxed(rng, texts)}, ['random', 'default-break']))
+        out += self._wave4_cases(rng, quick, corpus, mcorpus, frag_e, frag_s)
+        return out
+
+    # wave 4: histories (everything below draws from rng AFTER the streams above, which are unchanged) ---------
+    SEQ_POOL = '-=:„¬+'      # break-like characters the lines of the sequence cases end in
+
+    def _seq_lines(self, rng: random.Random) -> List[Dict[str, Any]]:
+        """lines whose ends exercise every break-like character of the pool: letter + character before a lower-case
+        continuation (joined iff the character is a break character of THAT call), doubled and detached ones"""
+        words = ['de', 'prys', 'is', '5', 'gulden', 'en', 'reke', 'ning', 'volgt', 'x', 'Raad', 'ver', 'gadering']
+        texts = []
+        for _ in range(rng.randint(2, 6)):
+            t = ' '.join(rng.choice(words) for _ in range(rng.randint(1, 4)))
+            r = rng.random()
+            c = rng.choice(self.SEQ_POOL)
+            if r < 0.55:
+                t += c
+            elif r < 0.65:
+                t += c + c
+            elif r < 0.75:
+                t += ' ' + c
+            elif r < 0.8:
+                t = None if rng.random() < 0.5 else ''
+            texts.append(t)
+        specs = specs_of(texts, None)
+        for s_ in specs:
+            s_['parent'] = rng.choice([None, 'tr1', 'tr1', 'tr2'])
+        return specs
+
+    def _wave4_cases(self, rng, quick, corpus, mcorpus, frag_e, frag_s) -> List[Case]:
+        out: List[Case] = []
+        P = self.SEQ_POOL
+        # (A) sequences of paragraph calls on the same lines: with / without detector, explicit / default break
+        # characters, handed over as str / set / list, the first call repeated at the end
+        def tables(B):
+            es, ss = rng.sample(frag_e, 4), rng.sample(frag_s, 4)
+            vocab = es + ss + ['reke', 'ning', 'rekening', 'ver', 'gadering', 'vergadering', 'prys', 'gulden']
+            return {'tables': random_tables(rng, B, sorted(set(vocab)))}
+        det_sets = ['-', '-=', '-=:', '„-', '=', '-¬', '+-=', ':']
+        for i in range(24 if quick else 200):
+            specs = self._seq_lines(rng)
+            dets = [tables(rng.choice(det_sets)) for _ in range(2)]
+            if i % 6 == 0:
+                dets[0] = {'gen': {'seed': rng.randrange(10 ** 6), 'n': 300, 'B': rng.choice(det_sets[1:4]),
+                                   'p_break': 0.5, 'min_bigram': 1}}
+            steps = []
+            for _ in range(rng.randint(2, 5)):
+                r = rng.random()
+                if r < 0.3:
+                    st = {'B': None, 'det': None}
+                elif r < 0.5:
+                    st = {'B': rng.choice(['-', '-=', '=:', '-=:„', '¬']), 'det': None,
+                          'form': rng.choice(['str', 'set', 'list'])}
+                elif r < 0.8:
+                    st = {'B': rng.choice([None, '-', '-=:']), 'det': rng.choice(dets)}
+                else:
+                    st = {'B': rng.choice(['-', '=+']), 'det': rng.choice(dets), 'form': rng.choice(['set', 'list'])}
+                steps.append(st)
+            if i % 2 == 0:       # the shape "plain call, something else, the same plain call again"
+                steps = [{'B': None, 'det': None}] + steps + [{'B': None, 'det': None}]
+            else:
+                steps.append(dict(steps[0]))
+            out.append(Case('para_seq', {'lines': specs, 'steps': steps}, ['history', 'sequence']))
+        # the corpus lines through a fixed history
+        hist = [{'B': None, 'det': None}, {'B': '-=:', 'det': None, 'form': 'set'},
+                {'B': None, 'det': tables('-=')}, {'B': None, 'det': None}]
+        for texts in corpus[::3 if quick else 1]:
+            out.append(Case('para_seq', {'lines': specs_of(texts), 'steps': hist}, ['history', 'sequence', 'corpus']))
+        # (A) merge_lines on USED lines that have a parent; the merged line is then attached to another region
+        # (add_child / constructor / set_parent / not at all) and edited
+        k = 0
+        for texts in mcorpus + [['de heer heeft de reke-', 'ning betaald en', '', 'is vertrokken']]:
+            for attach in ('add_child', 'ctor', 'set_parent', None):
+                k += 1
+                lines = self._boxed(rng, texts)
+                for j, l in enumerate(lines):
+                    l['parent'] = [None, 'tr1', 'tr1', 'tr2'][(k + (j > 1)) % 4] if k % 3 else 'tr1'
+                out.append(Case('merge', {'remove': k % 2 == 0, 'wb': '-', 'lines': lines, 'attach': attach},
+                                ['corpus', 'history', 'attach:' + str(attach)]))
+        for _ in range(40 if quick else 400):
+            n = rng.randint(1, 5)
+            wb = rng.choice(['-', '-', '=', '„'])
+            texts = [rng.choice([None, '', rand_line(rng, wb, 6), rand_line(rng, wb, 6) + wb,
+                                 rng.choice('abBé1-. ') + rand_line(rng, wb, 4)]) for _ in range(n)]
+            lines = self._boxed(rng, texts)
+            par = rng.choice([None, 'tr1', 'tr1'])
+            for l in lines:
+                l['parent'] = par if rng.random() < 0.8 else rng.choice([None, 'tr2'])
+            out.append(Case('merge', {'remove': rng.random() < 0.7, 'wb': wb, 'lines': lines,
+                                      'attach': rng.choice(['add_child', 'ctor', 'set_parent', None])},
+                            ['random', 'history']))
         return out
 
     @staticmethod
@@ -399,13 +571,7 @@ class C16(Check):
 
     @staticmethod
     def _run_para(specs, B, wbd):
-        pdm, ph, th, ts = _real()
-        lines, _regions = mk_lines(specs)
-
-        def f():
-            text, ranges = ph.make_text_region_text(lines, wbd=wbd, **wbc_kw(B))
-            return {'text': text, 'ranges': canon(ranges)}
-        return call(f)
+        return run_para(specs, B, wbd)
 
     def impl(self, case: Case) -> Any:
         pdm, ph, th, ts = _real()
@@ -414,6 +580,16 @@ class C16(Check):
             wbd = make_detector(case.input.get('det'))
             B = case.input['B']
             return [self._run_para(specs, B, wbd) for specs in self._paras(case)]
+        if k == 'para_seq':
+            specs, steps = case.input['lines'], case.input['steps']
+            used = run_seq(specs, steps)                                   # in this (much used) process
+            seq = FRESH.ask({'specs': specs, 'steps': steps})              # the same history at the start of a process
+            outs = []
+            for n, st in enumerate(steps):
+                single = FRESH.ask({'specs': specs, 'B': st['B'], 'form': st.get('form', 'str'), 'det': st.get('det')})
+                outs.append({'out': used[n], 'seq': seq['ok'][n] if 'ok' in seq else {'worker_err': seq.get('worker_err')},
+                             'fresh': single})
+            return outs
         if k == 'para_fake':
             B, seed = case.input['B'], case.input['seed']
 
@@ -442,19 +618,63 @@ class C16(Check):
         if k == 'merge':
             lines, _ = mk_lines(case.input['lines'])
             from pagexml.model.coords import parse_derived_coords
+            # (A) the lines are USED objects: a paragraph is built from them before the merge and again after the
+            # merged line has been put to use (attached to another region, edited); the lines and the paragraph
+            # must be the same — an output must never alias an input
+            specs = case.input['lines']
+            para_before = run_para(specs, '-', None, lines=lines)
+            snap0 = snap_lines(lines)
+            merged = []
 
             def f():
                 m = ph.merge_lines(lines, **merge_kw(case.input))
+                merged.append(m)
                 return {'text': m.text, 'coords': canon(m.coords.points)}
             r = call(f)
             r['hull'] = call(lambda: canon(parse_derived_coords(lines).points))
+            changed = snap_diff(snap0, snap_lines(lines))
+            if changed:
+                r['inputs_changed'] = changed
+            if merged:
+                r['use'] = call(lambda: self._use_merged(pdm, merged[0], case.input.get('attach')))
+                aliased = snap_diff(snap0, snap_lines(lines))
+                if aliased != changed:
+                    r['inputs_aliased'] = aliased
+                para_after = run_para(specs, '-', None, lines=lines)
+                if para_after != para_before:
+                    r['para'] = {'before': para_before, 'after': para_after}
             return r
         raise ValueError(k)
+
+    @staticmethod
+    def _use_merged(pdm, m, attach):
+        """what a caller does with a merged line: give it an id and a home of its own, edit it"""
+        m.id = 'merged-line'
+        if attach == 'add_child':
+            pdm.PageXMLTextRegion(doc_id='other-region').add_child(m)
+        elif attach == 'ctor':
+            pdm.PageXMLTextRegion(doc_id='other-region', lines=[m])
+        elif attach == 'set_parent':
+            m.set_parent(pdm.PageXMLTextRegion(doc_id='other-region'))
+        m.metadata['custom'] = 'edited'
+        for key in list(m.metadata):
+            if isinstance(m.metadata[key], (list, dict)):
+                m.metadata[key] = type(m.metadata[key])()
+        m.text = (m.text or '') + '!'
+        if m.coords is not None and m.coords.points:
+            m.coords.points[0] = (-1, -1)
+        return attach
 
     # ---------------------------------------------------------------- model
     def requests(self, case: Case):
         pdm, ph, th, ts = _real()
         k = case.kind
+        if k == 'para_seq':
+            # the model is a pure function: the answer to step n is the model's answer to that call alone
+            reqs = []
+            for st in case.input['steps']:
+                reqs += self.requests(Case('para', {'B': st['B'], 'det': st.get('det'), 'lines': case.input['lines']}))
+            return reqs
         if k in ('para', 'para_enum', 'para_fake'):
             B = case.input['B']
             det = case.input.get('det')
@@ -504,6 +724,14 @@ class C16(Check):
 
     def compare(self, case, impl_out, model_out):
         k = case.kind
+        if k == 'para_seq':
+            for n, (st, o, b) in enumerate(zip(case.input['steps'], impl_out, model_out)):
+                for which in ('out', 'seq'):
+                    a = o[which]
+                    if 'worker_err' not in a and a != b:
+                        return (f'make_text_region_text, call {n + 1} of a sequence ({which}), B={st["B"]!r} '
+                                f'({st.get("form", "str")}): impl={a} model={b}')
+            return None
         if k in ('para', 'para_enum', 'para_fake'):
             for specs, a, b in zip(self._paras(case), impl_out, model_out):
                 if a != b:
@@ -547,54 +775,59 @@ class C16(Check):
                     one = Case('para', {'B': B, 'det': None, 'lines': specs}, case.tags)
                 else:
                     one = case
-                texts = [s.get('text') for s in specs]
-                if 'ok' not in o:
-                    if k == 'para_fake' and o.get('err') == 'AttributeError':
-                        continue      # the patched detector answered (True, None): not a detector answer
-                    bad('builder-raises', f'make_text_region_text raised {o["err"]} on texts {texts} (B={B!r})',
-                        one, [o])
-                    continue
-                text, ranges = o['ok']['text'], o['ok']['ranges']
-                ne = [s for s in specs if s.get('text')]
-                if len(ranges) != len(ne):
-                    bad('range-count', f'{len(ranges)} ranges for {len(ne)} non-empty lines: texts {texts}', one, [o])
-                    continue
-                if not ne:
-                    if text:
-                        bad('text-from-nothing', f'text {text!r} from lines without text', one, [o])
-                    continue
-                if text is None:
-                    bad('no-text', f'no text for non-empty lines {texts}', one, [o])
-                    continue
-                okr = ranges[0]['start'] == 0 and ranges[-1]['end'] == len(text) and \
-                    all(a['end'] == b['start'] for a, b in zip(ranges, ranges[1:])) and \
-                    all(r['start'] <= r['end'] for r in ranges)
-                if not okr:
-                    bad('range-contiguity', f'ranges {[(r["start"], r["end"]) for r in ranges]} are not contiguous '
-                                            f'from 0 to {len(text)}: texts {texts}', one, [o])
-                    continue
-                for s, r in zip(ne, ranges):
-                    if r['line_id'] != s['id'] or r['parent_id'] != s.get('parent'):
-                        bad('range-label', f'range labelled {r["line_id"]}/{r["parent_id"]}, line is '
-                                           f'{s["id"]}/{s.get("parent")}', one, [o])
-                    piece = text[r['start']:r['end']]
-                    if keep(piece, Bw) != keep(s['text'], Bw):
-                        bad('conservation', f'line {s["text"]!r} became {piece!r} (B={Bw!r}): characters other than '
-                                            f'whitespace and break characters differ; texts {texts}', one, [o])
-                if keep(text, Bw) != keep(''.join(s['text'] for s in ne), Bw):
-                    bad('conservation', f'paragraph {text!r} from {texts} (B={Bw!r})', one, [o])
-                lr = ranges[-1]
-                if text[lr['start']:lr['end']] != ne[-1]['text']:
-                    bad('last-line', f'last line {ne[-1]["text"]!r} appears as {text[lr["start"]:lr["end"]]!r}',
-                        one, [o])
-                if k == 'para' or k == 'para_enum':
-                    if det is None:
-                        self._no_detector_rules(ne, ranges, text, Bw, bad, one, o)
+                self._judge_para(k, B, Bw, det, specs, o, one, [o], bad)
+        elif k == 'para_seq':
+            # (A) a HISTORY of calls on the same line objects (and the same detector objects): every answer is judged
+            # as if it were the only call, must equal the answer of the same call at the start of a process, and no
+            # call may change what it was given
+            specs = case.input['lines']
+            steps = case.input['steps']
+
+            def plain(r):
+                return {x: v for x, v in r.items() if x != 'inputs_changed'}
+            for n, (step, o) in enumerate(zip(steps, out)):
+                B, det, form = step['B'], step.get('det'), step.get('form', 'str')
+                Bw = eff_break(B, det)
+                self._judge_para('para', B, Bw, det, specs, o['out'], case, out, bad)
+                if 'ok' in o['seq'] or 'err' in o['seq']:
+                    self._judge_para('para', B, Bw, det, specs, o['seq'], case, out, bad)
+                fr = o.get('fresh') or {}
+                if 'ok' in fr and 'worker_err' not in o['seq'] and plain(o['seq']) != plain(fr['ok']):
+                    prev = [{'B': s_['B'], 'form': s_.get('form', 'str'),
+                             'detector': None if s_.get('det') is None else eff_break(s_['B'], s_['det'])}
+                            for s_ in steps[:n]]
+                    bad('state-leak', f'the lines {[s_.get("text") for s_ in specs]} with break characters {B!r} '
+                                      f'({form}), detector {"yes" if det else "no"}, give {short(plain(fr["ok"]), 300)} '
+                                      f'as the first call of a process and {short(plain(o["seq"]), 300)} as call {n + 1} '
+                                      f'after the calls {prev}', case, out)
+            for which in ('out', 'seq'):
+                same = {}
+                for n, (step, o) in enumerate(zip(steps, out)):
+                    if 'worker_err' in o[which]:
+                        continue
+                    key = repr((step['B'], step.get('form', 'str'), step.get('det')))
+                    a = plain(o[which])
+                    if key in same and same[key][1] != a:
+                        bad('repeat-differs', f'calls {same[key][0] + 1} and {n + 1} of the sequence are the same call on '
+                                              f'the same lines and give {short(same[key][1], 300)} and {short(a, 300)}',
+                            case, out)
+                    same.setdefault(key, (n, a))
         elif k == 'merge':
             specs = case.input['lines']
             texts = [s.get('text') for s in specs]
             if not specs:
                 return fs
+            if 'inputs_changed' in out:
+                bad('merge-changes-input', f'merge_lines changed the lines it was given: {out["inputs_changed"][:4]}',
+                    case, out)
+            if 'inputs_aliased' in out:
+                bad('merge-aliases-input', f'after merge_lines the merged line was put to use ({case.input.get("attach")}, '
+                                           f'edited): the ORIGINAL lines changed: {out["inputs_aliased"][:4]}', case, out)
+            if 'para' in out:
+                bad('paragraph-after-merge', f'make_text_region_text on the same lines gives '
+                                             f'{short(out["para"]["before"], 300)} before merge_lines and '
+                                             f'{short(out["para"]["after"], 300)} after the merged line was put to use',
+                    case, out)
             if 'ok' not in out:
                 if 'ok' in out['hull']:
                     bad('merge-raises', f'merge_lines raised {out["err"]} on texts {texts}', case, out)
@@ -616,8 +849,54 @@ class C16(Check):
                 bad('merge-coords', 'merge_lines coords are not the hull of the lines\' coordinates', case, out)
         return fs
 
+    def _judge_para(self, k, B, Bw, det, specs, o, one, shown, bad):
+        """the statement on ONE answer of make_text_region_text (`o`) for the lines `specs`; `Bw` = the break
+        characters in effect (None: not declared by the interface — only what does not depend on them is judged)"""
+        texts = [s.get('text') for s in specs]
+        if 'inputs_changed' in o:
+            bad('input-changed', f'make_text_region_text changed its inputs: {o["inputs_changed"][:4]}', one, shown)
+        if 'ok' not in o:
+            if k == 'para_fake' and o.get('err') == 'AttributeError':
+                return      # the patched detector answered (True, None): not a detector answer
+            bad('builder-raises', f'make_text_region_text raised {o["err"]} on texts {texts} (B={B!r})', one, shown)
+            return
+        text, ranges = o['ok']['text'], o['ok']['ranges']
+        ne = [s for s in specs if s.get('text')]
+        if len(ranges) != len(ne):
+            bad('range-count', f'{len(ranges)} ranges for {len(ne)} non-empty lines: texts {texts}', one, shown)
+            return
+        if not ne:
+            if text:
+                bad('text-from-nothing', f'text {text!r} from lines without text', one, shown)
+            return
+        if text is None:
+            bad('no-text', f'no text for non-empty lines {texts}', one, shown)
+            return
+        okr = ranges[0]['start'] == 0 and ranges[-1]['end'] == len(text) and \
+            all(a['end'] == b['start'] for a, b in zip(ranges, ranges[1:])) and \
+            all(r['start'] <= r['end'] for r in ranges)
+        if not okr:
+            bad('range-contiguity', f'ranges {[(r["start"], r["end"]) for r in ranges]} are not contiguous '
+                                    f'from 0 to {len(text)}: texts {texts}', one, shown)
+            return
+        for s, r in zip(ne, ranges):
+            if r['line_id'] != s['id'] or r['parent_id'] != s.get('parent'):
+                bad('range-label', f'range labelled {r["line_id"]}/{r["parent_id"]}, line is '
+                                   f'{s["id"]}/{s.get("parent")}', one, shown)
+            piece = text[r['start']:r['end']]
+            if Bw is not None and keep(piece, Bw) != keep(s['text'], Bw):
+                bad('conservation', f'line {s["text"]!r} became {piece!r} (B={Bw!r}): characters other than '
+                                    f'whitespace and break characters differ; texts {texts}', one, shown)
+        if Bw is not None and keep(text, Bw) != keep(''.join(s['text'] for s in ne), Bw):
+            bad('conservation', f'paragraph {text!r} from {texts} (B={Bw!r})', one, shown)
+        lr = ranges[-1]
+        if text[lr['start']:lr['end']] != ne[-1]['text']:
+            bad('last-line', f'last line {ne[-1]["text"]!r} appears as {text[lr["start"]:lr["end"]]!r}', one, shown)
+        if k in ('para', 'para_enum') and det is None and Bw is not None:
+            self._no_detector_rules(ne, ranges, text, Bw, bad, one, shown)
+
     @staticmethod
-    def _no_detector_rules(ne, ranges, text, B, bad, one, o):
+    def _no_detector_rules(ne, ranges, text, B, bad, one, shown):
         for i in range(len(ne) - 1):
             t, nxt = ne[i]['text'], ne[i + 1]['text']
             piece = text[ranges[i]['start']:ranges[i]['end']]
@@ -630,22 +909,27 @@ class C16(Check):
             if c.isalpha() and c not in B:
                 if piece not in [v + ' ' for v in variants]:
                     bad('letter-then-space', f'line {t!r} (ends in a letter) contributes {piece!r}, expected the '
-                                             f'line plus exactly one blank', one, [o])
+                                             f'line plus exactly one blank', one, shown)
             elif len(t) >= 2 and c in B and not c.isspace() and t[-2].isalpha() and t[-2] not in B and \
                     nxt[0].islower() and nxt[0].isalpha() and nxt[0] not in B:
                 if piece not in [v[:-1] for v in variants]:
                     bad('hyphen-join', f'line {t!r} before {nxt!r} contributes {piece!r}, expected the line '
-                                       f'without its break character and without a blank', one, [o])
+                                       f'without its break character and without a blank', one, shown)
 
     def nontrivial(self, case: Case) -> bool:
-        if case.kind in ('para', 'para_fake'):
+        if case.kind in ('para', 'para_fake', 'para_seq'):
             ts_ = [s.get('text') for s in case.input['lines']]
             return sum(1 for t in ts_ if t) >= 2 or (any(t for t in ts_) and any(not t for t in ts_))
         return True
 
     def shrink_candidates(self, case: Case):
         k = case.kind
-        if k in ('para', 'para_fake', 'merge'):
+        if k == 'para_seq':
+            st = case.input['steps']
+            for i in range(len(st)):
+                if len(st) > 1:
+                    yield Case(k, dict(case.input, steps=st[:i] + st[i + 1:]), case.tags)
+        if k in ('para', 'para_fake', 'merge', 'para_seq'):
             ls = case.input['lines']
             for i in range(len(ls)):
                 yield Case(k, dict(case.input, lines=ls[:i] + ls[i + 1:]), case.tags)
